@@ -18,7 +18,7 @@ ReqDocsFull  == ReqDocsOver(JsonrpcFull, IdFull, MethodFull, ParamsFull)        
 ReqDocsQuick == ReqDocsFull
 
 (***************************** error documents *****************************)
-CodeFull    == {Absent, "null", "true", "f1_0", "s_1", "i0", "i1", "im1", "c_m32601", "c_2001", "ibig"}
+CodeFull    == {Absent, "null", "true", "f1_0", "s_1", "i0", "i1", "im1", "c_m32601", "c_2001", "c_2002", "ibig"}
 MessageFull == {Absent, "null", "s_empty", "s_a", "i1", "a_1"}
 DataFull    == {Absent, "null", "i0", "s_empty", "o_a"}
 ErrObjsOver(C, M, D) == [shape : {"obj"}, code : C, message : M, data : D]
@@ -79,7 +79,7 @@ BasesAll == {"JsonRpcError", "VerifBaseError"}
 MsgIds == {"notif", "i0", "i1", "im1", "ibig", "s_empty", "s_a", "s_1", "s_esc"}
 ReqMsgsFull == [method : {"s_a", "s_empty", "s_esc"},
                 params : {"none", "a_1", "a_deep", "o_a", "o_deep"}, id : MsgIds]
-ErrCodes == {"i0", "i1", "im1", "ibig", "c_m32700", "c_m32601", "c_m32000", "c_m32050", "c_2001"}
+ErrCodes == {"i0", "i1", "im1", "ibig", "c_m32700", "c_m32601", "c_m32000", "c_m32050", "c_2001", "c_2002"}
 ErrMsgsOver(B) == {[cls |-> ClassOf(c, b), code |-> c, message |-> m, data |-> d] :
                      c \in ErrCodes, m \in {"s_a", "s_empty", "s_esc"},
                      d \in {Absent, "null", "i0", "false", "s_empty", "a_empty", "o_a", "a_deep"}, b \in B}
